@@ -1100,16 +1100,90 @@ fn push_like(_p: &str) -> String {
 
 /// sstore(1, 0xaa) before a JUMPI: both successors must still see the write.
 fn fork_keeps_storage(_p: &str) -> String {
-    // PUSH1 0xaa PUSH1 1 SSTORE  CALLDATASIZE PUSH1 0x0a JUMPI  STOP  (pad)  JUMPDEST STOP
-    let code = [0x60u8, 0xaa, 0x60, 0x01, 0x55, 0x36, 0x60, 0x0a, 0x57, 0x00, 0x5b, 0x00];
+    // sstore(1,0xaa) sstore(1,0xbb) sstore(2,0xcc)  PUSH1 7 PUSH1 8  CALLDATASIZE PUSH1 <dest> JUMPI  STOP  JUMPDEST STOP
+    // both paths must carry the complete history of both slots, in order, and the same stack
+    let mut code = vec![0x60u8, 0xaa, 0x60, 0x01, 0x55, 0x60, 0xbb, 0x60, 0x01, 0x55, 0x60, 0xcc, 0x60, 0x02, 0x55, 0x60, 0x07, 0x60, 0x08, 0x36, 0x60];
+    let dest = code.len() as u8 + 3;
+    code.extend_from_slice(&[dest, 0x57, 0x00, 0x5b, 0x00]);
     let stream = InstructionStream::try_from(code.as_slice()).expect("disassembles");
     let mut vm = VM::new(stream, Config::default(), LazyWatchdog.in_rc()).expect("vm");
     let _ = vm.execute();
+    let mut bad = Vec::new();
     let mut counts = Vec::new();
+    let constant = |v: &RuntimeBoxedVal| match v.constant_fold().data() { RSVD::KnownData { value } => usize::from(*value) as i64, _ => -1 };
     for st in vm.stored_states() {
         counts.push(st.storage().entry_count());
+        for (slot, want) in [(1usize, vec![0xaa, 0xbb]), (2usize, vec![0xcc])] {
+            let key = RSV::new_known_value(0, KnownWord::from(slot), Provenance::Synthetic, None);
+            let got: Vec<i64> = st.storage().generations(&key).unwrap_or_default().iter().map(|g| constant(g)).collect();
+            if got != want {
+                bad.push(format!("slot {slot}: history {got:?}, the writes before the branch are {want:?}"));
+            }
+        }
+        let stack: Vec<i64> = (0..st.stack().depth() as u32).map(|d| constant(st.stack().read(d).expect("frame"))).collect();
+        if stack != vec![8, 7] {
+            bad.push(format!("stack {stack:?}, pushed before the branch: [8, 7]"));
+        }
     }
-    format!("{{\"violates\": {}, \"storage_entries_per_path\": \"{:?}\"}}", counts.len() != 2 || counts.iter().any(|c| *c != 1), counts)
+    if counts.len() != 2 {
+        bad.push(format!("{} paths, expected 2", counts.len()));
+    }
+    format!("{{\"violates\": {}, \"storage_entries_per_path\": \"{:?}\", \"problems\": \"{}\"}}", !bad.is_empty(), counts, bad.join("; "))
+}
+
+/// lift and assign_vars, each driven on its own with a counting watchdog: a phase loop over n values polled every k
+/// iterations makes exactly ceil(n / k) polls; a watchdog that says stop from poll j on makes the phase fail with
+/// StoppedByWatchdog after exactly j + 1 polls.
+fn tc_phase_polls(p: &str) -> String {
+    use storage_layout_extractor::tc::TypeChecker;
+    let k = param(p, "interval").unwrap_or(3).max(1) as usize;
+    let mut code = Vec::new();
+    for slot in 0..12u8 {
+        code.extend([0x60, slot, 0x54, 0x60, 0x01, 0x01, 0x15, 0x60, slot, 0x55]);
+    }
+    code.extend([0x33, 0x60, 12, 0x55, 0x00]);
+    let exec = || {
+        let stream = InstructionStream::try_from(code.as_slice()).expect("disassembles");
+        let mut vm = VM::new(stream, Config::default(), LazyWatchdog.in_rc()).expect("vm");
+        vm.execute().expect("executes");
+        vm.consume()
+    };
+    let mut bad = Vec::new();
+    // lift
+    let result = exec();
+    let mut uniq: Vec<RuntimeBoxedVal> = Vec::new();
+    for v in result.clone().all_values() {
+        if !uniq.contains(&v) {
+            uniq.push(v);
+        }
+    }
+    let n_lift = uniq.len();
+    let wd = std::rc::Rc::new(CountingWatchdog { polls: std::cell::Cell::new(0), stop_from: usize::MAX, interval: k });
+    let mut checker = TypeChecker::new(tc::Config::default(), wd.clone());
+    let lifted = checker.lift(result).expect("lifts");
+    if wd.polls.get() != (n_lift + k - 1) / k {
+        bad.push(format!("lift: {} polls for {} values at interval {}", wd.polls.get(), n_lift, k));
+    }
+    // assign_vars
+    let n_assign = lifted.len();
+    let wd = std::rc::Rc::new(CountingWatchdog { polls: std::cell::Cell::new(0), stop_from: usize::MAX, interval: k });
+    let mut checker = TypeChecker::new(tc::Config::default(), wd.clone());
+    checker.assign_vars(lifted.clone()).expect("assigns");
+    if wd.polls.get() != (n_assign + k - 1) / k {
+        bad.push(format!("assign_vars: {} polls for {} values at interval {}", wd.polls.get(), n_assign, k));
+    }
+    // stop at every poll index of assign_vars
+    for j in 0..(n_assign + k - 1) / k {
+        let wd = std::rc::Rc::new(CountingWatchdog { polls: std::cell::Cell::new(0), stop_from: j, interval: k });
+        let mut checker = TypeChecker::new(tc::Config::default(), wd.clone());
+        let r = checker.assign_vars(lifted.clone());
+        let stopped = matches!(&r, Err(e) if format!("{e:?}").contains("StoppedByWatchdog"));
+        if !stopped || wd.polls.get() != j + 1 {
+            bad.push(format!("assign_vars told to stop at poll {j}: stopped={stopped}, polls={}", wd.polls.get()));
+            break;
+        }
+    }
+    format!("{{\"violates\": {}, \"interval\": {}, \"lift_values\": {}, \"assign_values\": {}, \"problems\": \"{}\"}}", !bad.is_empty(), k, n_lift, n_assign, bad.join("; "))
 }
 
 /// Concrete stack programs: PUSH1 1..5 then DUPn / SWAPn for every n that fits; the resulting stack must match a list model.
@@ -1143,6 +1217,21 @@ fn stack_ops(_p: &str) -> String {
             }
             if got != model {
                 bad.push(format!("{}{}: {:?} expected {:?}", if is_dup { "DUP" } else { "SWAP" }, n, got, model));
+            }
+        }
+    }
+    // at the limit: with 1024 items on the stack neither PUSH0 nor DUP1 may succeed; with 1023 both do
+    for filled in [1023usize, 1024] {
+        for grow in [0x5fu8, 0x80] {
+            let mut code = vec![0x5fu8; filled];
+            code.push(grow);
+            code.push(0x00);
+            let stream = InstructionStream::try_from(code.as_slice()).expect("disassembles");
+            let mut vm = VM::new(stream, Config::default(), LazyWatchdog.in_rc()).expect("vm");
+            let ok = vm.execute().is_ok();
+            let deepest = vm.stored_states().iter().map(|st| st.stack().depth()).max().unwrap_or(0);
+            if ok != (filled < 1024) || deepest > 1024 {
+                bad.push(format!("{} items then opcode {grow:#x}: execute ok={ok}, deepest stack {deepest}", filled));
             }
         }
     }
@@ -1293,6 +1382,7 @@ fn main() {
         "storage_history" => storage_history(&p),
         "memory_history" => memory_history(&p),
         "watchdog_sweep" => watchdog_sweep(&p),
+        "tc_phase_polls" => tc_phase_polls(&p),
         "unify_polls" => unify_polls(&p),
         "opcode_wiring" => opcode_wiring(&p),
         "node_size" => node_size(&p),
